@@ -104,6 +104,14 @@ fn table() -> Vec<Bad> {
     for s in ["warn", "fatal", "", "err", "2", "error "] {
         push("severity", vec![a("severity", s), a("keep-sorted", "asc")], vec![a("keep-sorted", "asc")], &["b", "a"], "");
     }
+    // the unknown severity on a violating block of every other rule kind (synchronous and asynchronous)
+    for s in ["warn", "fatal"] {
+        push("severity", vec![a("severity", s), a("check-lua", "echo.lua")], vec![a("check-lua", "echo.lua")], &["b", "a"], "lua-echo");
+        push("severity", vec![a("severity", s), a("line-count", "<1")], vec![a("line-count", "<1")], &["b", "a"], "");
+        push("severity", vec![a("severity", s), ("keep-unique".into(), None)], vec![("keep-unique".into(), None)], &["a", "a"], "");
+        push("severity", vec![a("severity", s), a("line-pattern", "^x")], vec![a("line-pattern", "^x")], &["b", "a"], "");
+        push("severity", vec![a("severity", s), a("check-ai", "BAD condition")], vec![a("check-ai", "BAD condition")], &["b", "a"], "ai");
+    }
     for (v, sp) in [("", ""), (" ", ""), ("missing.lua", "lua-missing"), ("scripts", "lua-dir"), ("bad.lua", "lua-badutf8"), ("empty.lua", "lua-empty")] {
         push("check-lua-script", vec![a("check-lua", v)], vec![a("check-lua", "nil.lua")], &["a", "b"], sp);
     }
@@ -223,6 +231,7 @@ fn run_tree(b: &Bad, control: bool, probe: &Probe) -> (String, Outcome) {
     }
     let sb = if b.mode == 2 { Sandbox::new() } else { Sandbox::with_fake_git() };
     sb.write("nil.lua", super::c11::NIL_LUA.as_bytes());
+    sb.write("echo.lua", super::c11::ECHO_LUA.as_bytes());
     sb.write("bad.lua", b"function validate(ctx, c) return nil end -- \xff\xfe\n");
     sb.write("empty.lua", b"");
     sb.write("scripts/keep.txt", b"x\n");
@@ -241,7 +250,7 @@ fn run_tree(b: &Bad, control: bool, probe: &Probe) -> (String, Outcome) {
         sb.write("z_ok.sh", render_batch(Host::Sh, &[healthy_block("n2")]).text.as_bytes());
         paths.push("z_ok.sh");
     }
-    let fake = if b.special.starts_with("ai") { Some(FakeAi::start(|_, _| Reply::Text("OK".into()))) } else { None };
+    let fake = if b.special.starts_with("ai") { Some(FakeAi::start(|_, req| if req.user_message().unwrap_or_default().contains("BAD") { Reply::Text("objection".into()) } else { Reply::Text("OK".into()) })) } else { None };
     let mut run = match b.mode {
         0 => BwRun::scan(&paths),
         1 => BwRun::scan(&[]),
@@ -305,7 +314,7 @@ pub fn check(b: &Bad, probe: &Probe) -> Verdict {
 }
 
 pub fn run(run: &mut Run) {
-    run.rule = "enumerated: a table of malformations judged invalid by the statement (sort direction, sort format, non-numeric keys with >= 2 keys (5 hand-picked blocks and every 2- and 3-line block over {1, 2, x, n/a, blank} with a non-numeric key, incl. identical neighbours), 7 uncompilable regexes x 5 regex-bearing attributes on blocks with content, 15 bad line-count expressions, colon-less affects on a modified block, unknown severity on a violating block, empty/missing/directory/invalid-UTF-8/empty-file Lua scripts, empty AI condition, missing/empty API key) x placement (first/middle/last block; healthy file before/after/both; other satisfied rules on the block) x mode (scan with paths, interactive scan, new-file diff); the sort-direction / sort-format / regex / line-count / Lua-script malformations also on a block written on ONE source line of a JavaScript file (content without a second physical line); every script-free malformation also next to a healthy check-lua block (synchronous and asynchronous validators joined in one run); each with a control run (malformation repaired) that must be healthy. Non-trivial = the malformed block is not alone/first. Quick runs a covering subset of the placement grid, thorough the full product.".into();
+    run.rule = "enumerated: a table of malformations judged invalid by the statement (sort direction, sort format, non-numeric keys with >= 2 keys (5 hand-picked blocks and every 2- and 3-line block over {1, 2, x, n/a, blank} with a non-numeric key, incl. identical neighbours), 7 uncompilable regexes x 5 regex-bearing attributes on blocks with content, 15 bad line-count expressions, colon-less affects on a modified block, unknown severity on a violating block of every rule kind (keep-sorted, keep-unique, line-pattern, line-count, check-lua, check-ai), empty/missing/directory/invalid-UTF-8/empty-file Lua scripts, empty AI condition, missing/empty API key) x placement (first/middle/last block; healthy file before/after/both; other satisfied rules on the block) x mode (scan with paths, interactive scan, new-file diff); the sort-direction / sort-format / regex / line-count / Lua-script malformations also on a block written on ONE source line of a JavaScript file (content without a second physical line); every script-free malformation also next to a healthy check-lua block (synchronous and asynchronous validators joined in one run); each with a control run (malformation repaired) that must be healthy. Non-trivial = the malformed block is not alone/first. Quick runs a covering subset of the placement grid, thorough the full product.".into();
     run.assumptions = vec!["valid spellings are never expected to fail: every table entry is invalid by the statement's own wording".into()];
     let thorough = run.tier == crate::engine::Tier::Thorough;
     let items = enumerated(thorough);
